@@ -79,6 +79,53 @@ func sortStrings(a []string) {
 var idStarts = []string{"a", "b", "x", "y", "Z", "$", "_", "é", "中", "Σ", "℮", "ᢅ", "π", `\u0061`, `\u{62}`, `\u{1F}`, "e", "n", "i", "f", `\u{0062}`, `\u{000062}`, `\u{00000062}`, `\u{000000062}`, `\u{0000000000062}`, `\u{2F800}`, `\u{00002F800}`}
 var idConts = []string{"a", "e", "n", "x", "0", "9", "$", "_", "é", "\u200c", "\u200d", "́", "‿", "٣", `\u0030`, `\u{5f}`, "中", `\u{00005f}`, `\u{0000000030}`, `\u{000000000000061}`, "ั", "\u0e34"}
 
+// samples of every category that ID_Start and ID_Continue are made of (UAX #31): the first and the last code point of
+// the first ranges and of the last range of each table, and the whole of Other_ID_Start / Other_ID_Continue. A start
+// character may also continue an identifier.
+func init() {
+	sample := func(tab *unicode.RangeTable, all bool) (out []string) {
+		add := func(r rune) { out = append(out, string(r)) }
+		n := 0
+		for _, r := range tab.R16 {
+			if all {
+				for c := rune(r.Lo); c <= rune(r.Hi); c += rune(r.Stride) {
+					add(c)
+				}
+			} else if n < 3 {
+				add(rune(r.Lo))
+				add(rune(r.Hi))
+			}
+			n++
+		}
+		if len(tab.R16) > 3 && !all {
+			add(rune(tab.R16[len(tab.R16)-1].Hi))
+		}
+		for i, r := range tab.R32 {
+			if all {
+				for c := rune(r.Lo); c <= rune(r.Hi); c += rune(r.Stride) {
+					add(c)
+				}
+			} else if i == 0 || i == len(tab.R32)-1 {
+				add(rune(r.Lo))
+				add(rune(r.Hi))
+			}
+		}
+		return out
+	}
+	for _, tab := range []*unicode.RangeTable{unicode.Lu, unicode.Ll, unicode.Lt, unicode.Lm, unicode.Lo, unicode.Nl} {
+		x := sample(tab, false)
+		idStarts = append(idStarts, x...)
+		idConts = append(idConts, x...)
+	}
+	x := sample(unicode.Other_ID_Start, true)
+	idStarts = append(idStarts, x...)
+	idConts = append(idConts, x...)
+	for _, tab := range []*unicode.RangeTable{unicode.Mn, unicode.Mc, unicode.Nd, unicode.Pc} {
+		idConts = append(idConts, sample(tab, false)...)
+	}
+	idConts = append(idConts, sample(unicode.Other_ID_Continue, true)...)
+}
+
 func identifier(t *rapid.T) string {
 	for {
 		s := rapid.SampledFrom(idStarts).Draw(t, "idstart")
